@@ -196,6 +196,12 @@ class TermGen:
         # comparisons are often (dis)equalities between such applications, so that theory combination (interface
         # equalities, values invented by the Egraph model builder next to Simplex values) carries the answer
         self.uf_heavy = False
+        # term memory: non-Boolean compound terms generated earlier in this history (outside let bodies and macro bodies) are
+        # re-used as subterms of later assertions, also across push/pop: div/mod, ite, select/store and UF applications meet the
+        # caches of the preprocessing passes (definitions of auxiliary variables, purification, CNF) a second time
+        self.memory = {}
+        self.reuse = 0.0
+        self.no_memory = False
 
     # ---------------------------------------------------------------- constants
     def const(self, sort):
@@ -236,28 +242,56 @@ class TermGen:
         return out
 
     def uf_app(self, f, d):
-        return T('app', f[2], head=f[0], args=[self.term(s, d - 1) for s in f[1]])
+        return self.remember(T('app', f[2], head=f[0], args=[self.term(s, d - 1) for s in f[1]]))
+
+    def remember(self, t):
+        if self.no_memory or self.let_depth > 0 or t.sort == 'Bool' or t.op != 'app' or not t.args:
+            return t
+        m = self.memory.setdefault(t.sort, [])
+        if len(m) < 40:
+            m.append(t)
+        return t
+
+    def recall(self, sort):
+        """A remembered term of that sort whose macros are all still defined, or None."""
+        m = self.memory.get(sort)
+        if not m or self.no_memory or self.rng.random() >= self.reuse:
+            return None
+        t = self.rng.choice(m)
+        syms = set()
+        symbols_of(t, syms)
+        live = {mm[0] for mm in self.macros}
+        if any(x[:1] == 'm' and x[1:].isdigit() and x not in live for x in syms):
+            return None
+        return t
 
     def uterm(self, sort, d):
         r = self.rng
         c = r.random()
+        if d > 0:
+            t0 = self.recall(sort)
+            if t0 is not None:
+                return t0
         if d <= 0 or c < 0.4:
             return self.var(sort)
         cands = self.app_candidates(sort)
         if cands and c < 0.75:
             return self.uf_app(r.choice(cands), d)
         if self.sig.array and self.sig.array[2] == sort and c < 0.85:
-            return T('app', sort, head='select', args=[self.array(d - 1), self.term(self.sig.array[1], d - 1)])
+            return self.remember(T('app', sort, head='select', args=[self.array(d - 1), self.term(self.sig.array[1], d - 1)]))
         if c < 0.95:
-            return T('app', sort, head='ite', args=[self.boolean(d - 1), self.uterm(sort, d - 1), self.uterm(sort, d - 1)])
+            return self.remember(T('app', sort, head='ite', args=[self.boolean(d - 1), self.uterm(sort, d - 1), self.uterm(sort, d - 1)]))
         return self.var(sort)
 
     def array(self, d):
         asort, idx, elt = self.sig.array
         if d <= 0 or self.rng.random() < 0.5:
             return self.var(asort)
+        t0 = self.recall(asort)
+        if t0 is not None:
+            return t0
         if self.rng.random() < 0.85:
-            return T('app', asort, head='store', args=[self.array(d - 1), self.term(idx, d - 1), self.term(elt, d - 1)])
+            return self.remember(T('app', asort, head='store', args=[self.array(d - 1), self.term(idx, d - 1), self.term(elt, d - 1)]))
         return T('app', asort, head='ite', args=[self.boolean(d - 1), self.array(d - 1), self.array(d - 1)])
 
     def numeric(self, sort, d):
@@ -265,6 +299,10 @@ class TermGen:
         if self.p['dl']:
             return self.dl_leaf(sort, d)
         c = r.random()
+        if d > 0:
+            t0 = self.recall(sort)
+            if t0 is not None:
+                return t0
         if self.uf_heavy and d > -2 and r.random() < (0.45 if d > 0 else 0.3):
             cands = self.sig.funs_returning(sort)
             if cands:
@@ -276,7 +314,7 @@ class TermGen:
             return T('app', sort, head='+', args=[self.numeric(sort, d - 1) for _ in range(n)])
         if c < 0.6:
             n = r.randint(1, 2)
-            return T('app', sort, head='-', args=[self.numeric(sort, d - 1) for _ in range(n)])
+            return self.remember(T('app', sort, head='-', args=[self.numeric(sort, d - 1) for _ in range(n)]))
         if c < 0.72:
             args = [self.const(sort), self.numeric(sort, d - 1)]
             if r.random() < 0.3:
@@ -285,12 +323,12 @@ class TermGen:
                 args.append(self.const(sort))
             return T('app', sort, head='*', args=args)
         if c < 0.8:
-            return T('app', sort, head='ite', args=[self.boolean(d - 1), self.numeric(sort, d - 1), self.numeric(sort, d - 1)])
+            return self.remember(T('app', sort, head='ite', args=[self.boolean(d - 1), self.numeric(sort, d - 1), self.numeric(sort, d - 1)]))
         if c < 0.88:
             if sort == 'Int':
                 k = self.nonzero_const('Int') if r.random() < 0.3 else T('num', 'Int', val=Fraction(r.choice([2, 3, -2, 5, -3, 1, -1])))
-                return T('app', 'Int', head=r.choice(['div', 'mod']), args=[self.numeric('Int', d - 1), k])
-            return T('app', 'Real', head='/', args=[self.numeric('Real', d - 1), self.nonzero_const('Real')])
+                return self.remember(T('app', 'Int', head=r.choice(['div', 'mod']), args=[self.numeric('Int', d - 1), k]))
+            return self.remember(T('app', 'Real', head='/', args=[self.numeric('Real', d - 1), self.nonzero_const('Real')]))
         cands = self.app_candidates(sort)
         if cands and c < 0.96:
             return self.uf_app(r.choice(cands), d)
